@@ -658,11 +658,21 @@ NvmModule *asm_assemble(const char *source, AsmResult *result) {
         memcpy(line_buf, line_start, line_len);
         line_buf[line_len] = '\0';
 
-        /* Strip trailing comment */
-        char *comment = strchr(line_buf, ';');
-        if (comment) *comment = '\0';
-        comment = strchr(line_buf, '#');
-        if (comment) *comment = '\0';
+        /* Strip trailing comment: the first ';' or '#' that is not inside a
+         * quoted string (string constants may contain both characters) */
+        {
+            bool in_quotes = false;
+            for (char *c = line_buf; *c; c++) {
+                if (in_quotes && *c == '\\' && c[1] != '\0') {
+                    c++;                       /* skip the escaped character */
+                } else if (*c == '"') {
+                    in_quotes = !in_quotes;
+                } else if (!in_quotes && (*c == ';' || *c == '#')) {
+                    *c = '\0';
+                    break;
+                }
+            }
+        }
 
         /* Strip trailing whitespace */
         size_t len = strlen(line_buf);
